@@ -122,15 +122,6 @@ def make_case(rng, *, shape=None, tiny=False, neartie=False):
         m = gen.rand_mdp(rng, n_na=n_na, n_abs=n_abs, K=K, PD=PD, GN=GN, GD=GD, rewards=rew, ID=rng.choice([2, 4]),
                          force_progress=True, uniform_actions=True, ghost=rng.random() < 0.5,
                          init_on_abs=0.15)
-        if not gen.ghost_closed(m):
-            continue
-        unreachable = m["N"] - len(gen.reach(m))
-        if shape == "state-list-with-unreachable-states" and unreachable == 0:
-            continue
-        rep = dict(REPS[rng.randrange(len(REPS))])
-        if shape == "state-list-with-unreachable-states":
-            rep["explicit_list"] = True
-            rep["rep"] = rng.choice(["quick", "subclass", "matrices"])
         RE = None
         if neartie:
             # action 1 duplicates action 0 with every reward lowered by 1/EPSD: once both are known their returned
@@ -147,6 +138,15 @@ def make_case(rng, *, shape=None, tiny=False, neartie=False):
                     for t_ in range(N):
                         if RE[s_][a_][t_] == 0 and m["R"][s_][a_][t_] < top and rng.random() < 0.15:
                             RE[s_][a_][t_] = 1
+        if not gen.ghost_closed(m):
+            continue
+        unreachable = m["N"] - len(gen.reach(m))
+        if shape == "state-list-with-unreachable-states" and unreachable == 0:
+            continue
+        rep = dict(REPS[rng.randrange(len(REPS))])
+        if shape == "state-list-with-unreachable-states":
+            rep["explicit_list"] = True
+            rep["rep"] = rng.choice(["quick", "subclass", "matrices"])
         cfg = {"thr": rng.choice([1, 1, 2, 2, 3, 4, 5]) if not neartie else rng.choice([1, 1, 2]),
                "episodes": rng.choice([1, 2, 3, 5, 8, 13, 20]) if not neartie else rng.choice([3, 5, 8, 13, 20]),
                "seed": rng.choice([0, 1, 2, 3, 7, 11, 42, 12345, 2 ** 31 - 1]) if rng.random() < 0.5 else rng.randrange(10 ** 6),
